@@ -371,7 +371,9 @@ class TapeRecorder(object):
                 if self.in_playback_mode:
                     return self._execute_operation_func(func, args, kwargs)
 
-                if not self.recording_enabled:
+                if not self.recording_enabled or self._currently_in_interception:
+                    # An operation that is invoked from within an intercepted function is part of that interception
+                    # (inner interceptions are skipped there), a recording of it would have nothing to be played from
                     return func(*args, **kwargs)
 
                 cls = args[0] if class_function else type(args[0])
